@@ -503,6 +503,13 @@ func harnessAPI(name string) (IntrinsicFn, bool) {
 			}
 			return nil
 		}, true
+	case "verifSetBasicAuth":
+		return func(in *Interp, _ *frame, fn *ssa.Function, args []Value, _ tokenPos) Value {
+			in.ghost["basicauth"] = TupleV{E: []Value{args[0], args[1], args[2], args[3]}}
+			return nil
+		}, true
+	case "verifDecodedRequest":
+		return func(in *Interp, _ *frame, fn *ssa.Function, args []Value, _ tokenPos) Value { return nil }, true
 	case "verifOnExit":
 		return func(in *Interp, _ *frame, fn *ssa.Function, args []Value, _ tokenPos) Value {
 			in.ghost["env:exit"] = args[0]
